@@ -154,6 +154,11 @@ def gen(seed, i, tier, force=None):
             kind = force.split(":")[1]
         o["_startkind"] = kind
         o["InitialDistStep"] = r.choice([-1, 0, 1, -2, 5])
+        if r.chance(0.35):
+            # several bucket currents together with a start distribution from a file (which always holds one bunch)
+            o["BunchCurrent"] = [round(r.loguniform(1e-4, 2e-3), 7) for _ in range(r.randint(2, 4))]
+            o["GridSize"] = r.choice([16, 24, 32])
+            o["_multi"] = True
     return cls, o
 
 
@@ -329,7 +334,7 @@ def run(ctx):
     ctx.rule = ("case = one run of the real program in the ASan/UBSan build (a sampled subset again under valgrind memcheck) from one of the generator classes: grid (size 4..300, orders, stencils, FP types, shifts up to n/3, padding 0.5..9, rounding), "
                 "buckets (2-6 buckets with empty ones, spacing from nearly touching upward with every fractional part, with/without rounding; a third touching with a spacing that rounds up to the next cell, 5-6 buckets, first and last occupied, no rounding of the padded length), rf (models x noise x modulation), kicks (1..13 steps per period: kicks beyond the grid), "
                 "impfile (exact/short/long/empty/missing/one column/text/NaN tokens/huge line numbers/duplicates/binary), tracking (edge, outside, empty, malformed, many, missing), "
-                "startdist (.txt ok/empty/malformed/outside; .h5 same/smaller/larger/rank 2/rank 5/zero records/two bunches/non-square/garbage; unknown extension); distinct by option set and file kind")
+                "startdist (.txt ok/empty/malformed/outside; .h5 same/smaller/larger/rank 2/rank 5/zero records/two bunches/non-square/garbage; unknown extension; a third together with 2-4 bucket currents); distinct by option set and file kind")
     th = ctx.tier == "thorough"
     n = 6000 if th else 360
     nmem = 240 if th else 16
@@ -363,6 +368,9 @@ def run(ctx):
         if res.get("finished"):
             ctx.ev("runs_that_finished")
         sub = res["opts"].get("_impkind") or res["opts"].get("_startkind") or res["opts"].get("_trkkind") or res["opts"].get("_bucketkind")
+        if sub and res["opts"].get("_multi"):
+            sub += "+buckets"
+            ctx.ev("start_files_with_several_bucket_currents")
         if sub:
             ctx.ev("filekind." + sub)
         for key, what, rep in res["viol"]:
@@ -370,4 +378,4 @@ def run(ctx):
         if len(ctx.samples) < 8 and res["i"] % 37 == 0:
             ctx.sample(dict(cls=res["cls"], options=res["opts"], exit_status=res["rc"], simulated=res.get("started")))
     ctx.min_events = {"runs.asan": n * 3 // 4, "runs.memcheck": nmem // 2, "runs_that_finished": n // 3,
-                      "class.grid": 20, "class.buckets": 10, "class.impfile": 20, "class.startdist": 20, "class.tracking": 10, "class.kicks": 10, "class.rf": 10, "filekind.roundup": 4}
+                      "class.grid": 20, "class.buckets": 10, "class.impfile": 20, "class.startdist": 20, "class.tracking": 10, "class.kicks": 10, "class.rf": 10, "filekind.roundup": 4, "start_files_with_several_bucket_currents": 4}
